@@ -543,6 +543,10 @@ def classify(script, out, res):
 
 
 def judge(ck, hbin, script, tag, lock):
+    if len(ck.violations) >= 3:        # enough alarms to act on; do not bury them
+        with lock:
+            ck.count("scripts:skipped-after-3-alarms")
+        return True
     out, res = evaluate(ck, hbin, script)
     kv = parse_header(script[0])
     corr = None
